@@ -106,6 +106,31 @@ Lexical ==
                       SPrint(EBin("===", EIndex(Nm(G), I(0)), Nm(F)))>>,
       builtinobj |-> <<SDecl(Nm(O1), EObj(<<Pair(EStr(FK), EVar(N_print))>>)),
                        SExpr(ECall(EProp(Nm(O1), FK), <<I(1)>>))>>,
+      \* a function never reached through an object has no `this`, also when a method calls it
+      helperinmethod |-> <<SFn(H, <<>>, FALSE, <<SReturn(ThisTag)>>),
+                           SDecl(Nm(O1), EObj(<<Pair(EStr(TAG), I(1)),
+                                                Pair(EStr(FK), EFunc(<<>>, FALSE, <<SReturn(ECall(Nm(H), <<>>))>>))>>)),
+                           SPrint(ECall(EProp(Nm(O1), FK), <<>>))>>,
+      \* a closure created in a method keeps that method's `this`, whoever calls it
+      closurekeeps |-> <<SDecl(Nm(O1), EObj(<<Pair(EStr(TAG), I(1)),
+                            Pair(EStr(<<109, 107>>), EFunc(<<>>, FALSE, <<SReturn(EFunc(<<>>, FALSE, <<SReturn(ThisTag)>>))>>))>>)),
+                         SDecl(Nm(O2), EObj(<<Pair(EStr(TAG), I(2)),
+                            Pair(EStr(<<114, 117, 110>>), EFunc(<<Nm(H)>>, FALSE, <<SReturn(ECall(Nm(H), <<>>))>>))>>)),
+                         SDecl(Nm(G), ECall(EProp(Nm(O1), <<109, 107>>), <<>>)),
+                         SPrint(ECall(Nm(G), <<>>)),
+                         SPrint(ECall(EProp(Nm(O2), <<114, 117, 110>>), <<Nm(G)>>))>>,
+      \* a method passed to and called by another object's method keeps its own object
+      methodviamethod |-> <<SDecl(Nm(O1), EObj(<<Pair(EStr(TAG), I(1)), Pair(EStr(FK), EFunc(<<>>, FALSE, <<SReturn(ThisTag)>>))>>)),
+                            SDecl(Nm(O2), EObj(<<Pair(EStr(TAG), I(2)),
+                               Pair(EStr(<<114, 117, 110>>), EFunc(<<Nm(H)>>, FALSE, <<SReturn(EList(<<ECall(Nm(H), <<>>), ThisTag>>))>>))>>)),
+                            SPrint(ECall(EProp(Nm(O2), <<114, 117, 110>>), <<EProp(Nm(O1), FK)>>))>>,
+      \* assignment replaces the provenance of the slot
+      assignreplaces |-> <<SDecl(Nm(O1), EObj(<<Pair(EStr(TAG), I(1)), Pair(EStr(FK), EFunc(<<>>, FALSE, <<SReturn(ThisTag)>>))>>)),
+                           SDecl(Nm(O2), EObj(<<Pair(EStr(TAG), I(2)), Pair(EStr(FK), EProp(Nm(O1), FK))>>)),
+                           SDecl(Nm(G), EProp(Nm(O1), FK)), SAssign(Nm(G), EProp(Nm(O2), FK)), SPrint(ECall(Nm(G), <<>>)),
+                           SDecl(Nm(H), EList(<<EProp(Nm(O1), FK)>>)), SAssign(EIndex(Nm(H), I(0)), EProp(Nm(O2), FK)),
+                           SPrint(ECall(EIndex(Nm(H), I(0)), <<>>)),
+                           SAssign(EProp(Nm(O1), FK), EProp(Nm(O2), FK)), SPrint(ECall(EProp(Nm(O1), FK), <<>>))>>,
       typefnvar |-> <<SDecl(Nm(G), ETProp(EStr(<<97, 98>>), N_len)), SPrint(ECall(Nm(G), <<>>)),
                       SDecl(Nm(H), ETProp(EList(<<>>), N_type)), SPrint(ECall(Nm(H), <<>>))>> ]
 
